@@ -462,6 +462,14 @@ class Interp:
 
     def assign(self, t, v, env):
         if isinstance(t, ast.Name):
+            if t.id in env.vars.get("__nonlocals__", ()):
+                e_ = env.parent
+                while e_ is not None and t.id not in e_.vars:
+                    e_ = e_.parent
+                if e_ is None:
+                    raise ModelError(f"no binding for nonlocal {t.id!r} found")
+                e_.vars[t.id] = v
+                return
             if t.id in env.vars.get("__globals__", ()):
                 mod = self.call_stack[-1].module
                 self._modglobals[(mod.name, t.id)] = v
@@ -636,7 +644,8 @@ class Interp:
         env.vars.setdefault("__globals__", set()).update(s.names)
 
     def x_Nonlocal(self, s, env):
-        self.unsupported(s, "nonlocal")
+        # names declared nonlocal: stores go to the nearest enclosing function scope that binds the name
+        env.vars.setdefault("__nonlocals__", set()).update(s.names)
 
     def x_Delete(self, s, env):
         for t in s.targets:
